@@ -2166,6 +2166,85 @@ pub fn subscription_string_ids() -> Value {
 }
 
 // ------------------------------------------------------------------------------------------
+/// C02 over WebSocket, batches whose entries call subscription / unsubscription methods: the reply is ONE array with one
+/// response per call entry, and no response to a batch entry travels outside that array. Real WS server, raw frames.
+/// Reports EVERY failing history (as a list), so that a recorded finding for one history does not hide another.
+pub fn batch_subscribe_entry() -> Value {
+	use jsonrpsee_client_transport::ws::WsTransportClientBuilder;
+	use jsonrpsee_core::client::{ReceivedMessage, TransportReceiverT, TransportSenderT};
+	use jsonrpsee_core::server::SubscriptionMessage;
+	rt().block_on(async move {
+		let server = match jsonrpsee_server::Server::builder().build("127.0.0.1:0").await { Ok(s) => s, Err(e) => return json!({"probe":"batch_subscribe_entry","error":e.to_string()}) };
+		let addr = server.local_addr().unwrap();
+		let mut module = RpcModule::new(());
+		module.register_method("add", |p, _, _| { let v: Vec<u64> = p.parse().unwrap_or_default(); v.iter().sum::<u64>() }).unwrap();
+		module
+			.register_subscription("sub", "notif", "unsub", |_, pending, _, _| async move {
+				let sink = match pending.accept().await { Ok(s) => s, Err(_) => return };
+				let _ = sink.send(SubscriptionMessage::from(serde_json::value::RawValue::from_string("1".to_string()).unwrap())).await;
+				sink.closed().await;
+			})
+			.unwrap();
+		module
+			.register_subscription("sub_rejecting", "notif2", "unsub2", |_, pending, _, _| async move {
+				pending.reject(jsonrpsee_types::ErrorObject::owned(-32000, "no", None::<()>)).await;
+			})
+			.unwrap();
+		let _handle = server.start(module);
+		async fn frames(addr: std::net::SocketAddr, msg: String) -> Result<Vec<Value>, String> {
+			let url = url::Url::parse(&format!("ws://{}", addr)).unwrap();
+			let (mut tx, mut rx) = WsTransportClientBuilder::default().build(url).await.map_err(|e| e.to_string())?;
+			tx.send(msg).await.map_err(|e| e.to_string())?;
+			let mut out = Vec::new();
+			loop {
+				match tokio::time::timeout(std::time::Duration::from_millis(700), rx.receive()).await {
+					Ok(Ok(ReceivedMessage::Text(t))) => out.push(serde_json::from_str(&t).unwrap_or(json!({"unparsable": t}))),
+					Ok(Ok(ReceivedMessage::Bytes(b))) => out.push(serde_json::from_slice(&b).unwrap_or(Value::Null)),
+					_ => break,
+				}
+			}
+			Ok(out)
+		}
+		let call = |id: u64| json!({"jsonrpc":"2.0","id":id,"method":"add","params":[id]});
+		let histories: Vec<(&str, Value, Vec<u64>)> = vec![
+			("batch [call 1, call 2] (control)", json!([call(1), call(2)]), vec![1, 2]),
+			("batch [call 1, unsubscribe of an unknown id 2]", json!([call(1), {"jsonrpc":"2.0","id":2,"method":"unsub","params":[99]}]), vec![1, 2]),
+			("batch [call 1, subscribe 2 (handler accepts)]", json!([call(1), {"jsonrpc":"2.0","id":2,"method":"sub"}]), vec![1, 2]),
+			("batch [subscribe 1 (handler accepts)]", json!([{"jsonrpc":"2.0","id":1,"method":"sub"}]), vec![1]),
+			("batch [call 1, subscribe 2 (handler rejects)]", json!([call(1), {"jsonrpc":"2.0","id":2,"method":"sub_rejecting"}]), vec![1, 2]),
+		];
+		let mut failing: Vec<Value> = Vec::new();
+		let mut observed: Vec<Value> = Vec::new();
+		for (what, msg, ids) in &histories {
+			let fs = match frames(addr, msg.to_string()).await { Ok(f) => f, Err(e) => return json!({"probe":"batch_subscribe_entry","error":e}) };
+			let arrays: Vec<&Value> = fs.iter().filter(|f| f.is_array()).collect();
+			// responses (frames carrying an id) that travel OUTSIDE an array; subscription notifications carry no id
+			let outside: Vec<&Value> = fs.iter().filter(|f| f.is_object() && f.get("id").is_some()).collect();
+			// each failing history is reported with the KIND of failure, so that a recorded finding of one kind does not hide another
+			let mut why: Vec<(&str, String)> = Vec::new();
+			if arrays.len() != 1 { why.push(("not exactly one array frame", format!("{} array frames", arrays.len()))); }
+			if let Some(a) = arrays.first() {
+				let mut got: Vec<u64> = a.as_array().unwrap().iter().filter_map(|e| e["id"].as_u64()).collect();
+				got.sort();
+				if &got != ids { why.push(("the array does not answer every call entry exactly once", format!("the array answers ids {got:?}"))); }
+			}
+			if !outside.is_empty() { why.push(("a response is delivered outside the array", format!("{} response(s) outside the array: {}", outside.len(), Value::Array(outside.iter().map(|v| (*v).clone()).collect())))); }
+			for (kind, detail) in why {
+				failing.push(json!(format!("{what} -- {kind}")));
+				observed.push(json!(format!("{what}: {detail}")));
+			}
+		}
+		if failing.is_empty() {
+			json!({"probe":"batch_subscribe_entry","disagrees":false,"histories_tried":histories.len(),"bound":"5 batches over one WS server: plain calls, an unsubscribe call, subscribe calls whose handler accepts / rejects"})
+		} else {
+			json!({"probe":"batch_subscribe_entry","disagrees":true,"input":failing,"observed":observed,
+				"expected":"exactly one array frame answering every call entry once, and no response to a batch entry outside it",
+				"bound":"5 batches over one WS server: plain calls, an unsubscribe call, subscribe calls whose handler accepts / rejects"})
+		}
+	})
+}
+
+// ------------------------------------------------------------------------------------------
 /// C04: once a subscription is closed by a successful unsubscribe its sink stays closed — even if a LATER subscription on the
 /// same connection is given the same id by the id provider. Real WS server, raw frames.
 pub fn subscription_id_reuse() -> Value {
